@@ -8,6 +8,7 @@ import (
 	"encoding/json"
 	"errors"
 	"fmt"
+	"log/slog"
 	"reflect"
 	"strings"
 	"testing"
@@ -418,6 +419,33 @@ func c14Paths(out *vOut, c int) {
 			return buf.String(), nil
 		}
 	}
+	zc := func(f func(s configopaque.String) zap.Field) func(s configopaque.String) (string, error) {
+		return func(s configopaque.String) (string, error) {
+			enc := zapcore.NewConsoleEncoder(zapcore.EncoderConfig{MessageKey: "m"})
+			buf, err := enc.EncodeEntry(zapcore.Entry{Message: "x"}, []zap.Field{f(s)})
+			if err != nil {
+				return "", err
+			}
+			return buf.String(), nil
+		}
+	}
+	sl := func(json bool, args func(s configopaque.String) []any) func(s configopaque.String) (string, error) {
+		return func(s configopaque.String) (string, error) {
+			var bb bytes.Buffer
+			opts := &slog.HandlerOptions{ReplaceAttr: func(_ []string, a slog.Attr) slog.Attr {
+				if a.Key == slog.TimeKey {
+					return slog.Attr{}
+				}
+				return a
+			}}
+			var h slog.Handler = slog.NewTextHandler(&bb, opts)
+			if json {
+				h = slog.NewJSONHandler(&bb, opts)
+			}
+			slog.New(h).Info("x", args(s)...)
+			return bb.String(), nil
+		}
+	}
 	mk := func(s configopaque.String) c14JSONStruct {
 		return c14JSONStruct{A: s, B: []configopaque.String{s}, C: map[string]configopaque.String{"k": s}, D: &s, E: s}
 	}
@@ -461,6 +489,19 @@ func c14Paths(out *vOut, c int) {
 			return zp(func(configopaque.String) zap.Field { return zap.String("k", m) })("")
 		}},
 		{"zap.Reflect", "value", zp(func(s configopaque.String) zap.Field { return zap.Reflect("k", mk(s)) }), nil},
+		{"zapconsole.Stringer", "value", zc(func(s configopaque.String) zap.Field { return zap.Stringer("k", s) }), func() (string, error) {
+			return zc(func(configopaque.String) zap.Field { return zap.String("k", m) })("")
+		}},
+		{"zapconsole.Any", "value", zc(func(s configopaque.String) zap.Field { return zap.Any("k", s) }), func() (string, error) {
+			return zc(func(configopaque.String) zap.Field { return zap.String("k", m) })("")
+		}},
+		{"zapconsole.Reflect", "value", zc(func(s configopaque.String) zap.Field { return zap.Reflect("k", mk(s)) }), nil},
+		{"slog.text", "value", sl(false, func(s configopaque.String) []any {
+			return []any{"k", s, slog.Any("a", s), slog.Group("g", slog.Any("h", map[string]configopaque.String{"x": s})), "l", []configopaque.String{s}}
+		}), nil},
+		{"slog.json", "value", sl(true, func(s configopaque.String) []any {
+			return []any{"k", s, slog.Any("a", s), slog.Group("g", slog.Any("h", map[string]configopaque.String{"x": s})), "l", []configopaque.String{s}, "st", mk(s)}
+		}), nil},
 		{"conv", "value", func(s configopaque.String) (string, error) { return string(s), nil }, nil},
 	}
 	a, b := configopaque.String(c14SecA[0]), configopaque.String(c14SecB[0])
